@@ -2,7 +2,7 @@ from pat import *
 from expr import fmt, walk
 from harness import Skip
 from guards import phi_defs
-from rules.common import adapters_in, calls_named, req, strip, S
+from rules.common import adapters_in, calls_named, req, strip, S, find_rel_edges
 
 INFO = {
     "explanation": "PARTIAL. Decided statically, from the constants the compiler evaluated and the MIR of the wiring code: (K) every "
@@ -295,13 +295,32 @@ def run_wiring(ctx):
                     block = sq[0][0]
                 src = ctx.loop_source(f, _E)
                 nbits = Bin("Sub", Sym("BITS"), S(Call("leading_zeros", Local(2))))
-                item = Field(Call("next"), name="0", variant="Some")
-                bit = Bin("BitAnd", Bin("Shr", Local(2), item), W1)
-                cond = [e for e in g.edges if e.cond[0] == "rel" and e.cond[1] == "Ne" and bit(e.cond[2]) and W0(e.cond[3])]
                 lp = g.loop_of(sq[0][0])
-                good = src is not None and Call("rev", Agg("Range", Lit(0), nbits))(src) and adapters_in(src) == ["rev"] and \
-                    len(cond) == 1 and b.dominates(cond[0].target, mx[0][0]) and \
-                    all(b.dominates(sq[0][0], tt) for (tt, hh) in b.back_edges() if hh == lp[0])
+                latches = [tt for (tt, hh) in b.back_edges() if hh == lp[0]]
+                if src is not None:
+                    # for i in (0..nbits).rev()
+                    item = Field(Call("next"), name="0", variant="Some")
+                    range_ok = Call("rev", Agg("Range", Lit(0), nbits))(src) and adapters_in(src) == ["rev"]
+                else:
+                    # let mut i = nbits; while i > 0 { i -= 1; .. }     (the same index sequence nbits-1, .., 0)
+                    item, range_ok = (lambda x: False), False
+                    ex = [e for e in find_rel_edges(g, "Eq", lambda x: x[0] == "phi", Lit(0)) + find_rel_edges(g, "Le", lambda x: x[0] == "phi", Lit(0))
+                          if e.block in lp[1] and e.target not in lp[1]]
+                    exits = [e for e in g.edges if e.block in lp[1] and e.target not in lp[1]]
+                    if len(ex) == 1 and len(exits) == 1:
+                        c = ex[0].cond
+                        ctr = c[2] if c[2][0] == "phi" else c[3]
+                        cd = phi_defs(g, ctr[1])
+                        ini = [d for d in cd if not Mentions(Same(ctr))(d[0])]
+                        dec = [d for d in cd if Bin("Sub", Same(ctr), Lit(1), commutative=False)(d[0])]
+                        if len(cd) == 2 and len(ini) == 1 and len(dec) == 1 and nbits(ini[0][0]) and dec[0][2] in lp[1] and \
+                                b.dominates(dec[0][2], sq[0][0]) and all(b.dominates(dec[0][2], tt) for tt in latches) and ex[0].block == lp[0]:
+                            item, range_ok = Same(ctr), True
+                bit = Bin("BitAnd", Bin("Shr", Local(2), item), W1)
+                cond = [e for e in g.edges if e.cond[0] == "rel" and ((e.cond[1] == "Ne" and bit(e.cond[2]) and W0(e.cond[3])) or
+                                                                     (e.cond[1] == "Eq" and bit(e.cond[2]) and W1(e.cond[3])))]
+                good = range_ok and len(cond) == 1 and b.dominates(cond[0].target, mx[0][0]) and \
+                    all(b.dominates(sq[0][0], tt) for tt in latches)
         req(ctx, rule, K + "square-and-multiply", good, "t = ROOTS[0]; for i in (0..bitlen(exp)).rev() { t = t*t; if bit i of exp { t = t*x } }",
             "FieldOps::pow is not left-to-right square-and-multiply starting from one", loc=f.loc)
     except Skip:
